@@ -25,16 +25,38 @@ impl Prop for C02 {
         let n = scale(tier, 2500, 40000);
         let mut v = Vec::new();
         for i in 0..n {
-            let k = Knobs::all().no_css();
-            let html = gen_doc(r, k).0;
+            let mut k = Knobs::all().no_css();
+            k.exotic_hrefs = true;
+            let mut html = gen_doc(r, k.clone()).0;
+            // a dedicated footnote stream: paragraphs full of links with wide/combining targets, footnotes on below
+            let foot = i % 5 == 4;
+            if foot {
+                let mut g = crate::gen::Gen::new(r, { let mut kk = k.clone(); kk.depth = 1; kk.tables = false; kk });
+                let mut s = String::from("<p>");
+                for _ in 0..1 + g.r.b(4) {
+                    // force the link arm by retrying
+                    let mut piece = String::new();
+                    while !piece.contains("<a ") {
+                        piece.clear();
+                        g.inline(1, &mut piece);
+                    }
+                    s.push_str(&piece);
+                    s.push(' ');
+                }
+                s.push_str("</p>");
+                html = s;
+            }
             let bytes = if i % 6 == 5 { gen::mutate(r, html.as_bytes()) } else { html.into_bytes() };
             let widths = if tier == Tier::Quick { 3 } else { 8 };
             for _ in 0..widths {
                 let mut cfg = mk_cfg(r, false);
                 cfg.overflow = false;
                 cfg.nolinkwrap = false;
+                if foot {
+                    cfg.footnotes = true;
+                }
                 let w = if r.p(60) { 1 + r.u(16) } else { 1 + r.u(120) };
-                v.push(case(bytes.clone(), cfg, w, if i % 6 == 5 { "g-mut" } else { "g-doc" }));
+                v.push(case(bytes.clone(), cfg, w, if foot { "footnotes" } else if i % 6 == 5 { "g-mut" } else { "g-doc" }));
             }
         }
         v
